@@ -433,6 +433,33 @@ def r8_narrowing(ctx):
     r.floor("U256 narrowing sites", n, 5)
 
 
+_W = {"u8": 8, "u16": 16, "u32": 32, "u64": 64, "u128": 128, "usize": 64, "i8": 8, "i16": 16, "i32": 32, "i64": 64, "i128": 128, "isize": 64}
+
+
+def r9_bounds_on_full_width(ctx):
+    r = ctx.rule("R9", "the executor's bound checks compare full-width quantities: no operand of a comparison in an instruction's code is an `as` cast to a narrower "
+                       "integer type, nor a saturating `try_from(..).unwrap_or(..)`, of a non-constant length / count / index (a length ≥ 2^k would pass a bound it exceeds)")
+    prog = ctx.prog
+    st = ctx.body(EX + "step::{closure#0}", r)
+    n = 0
+    for b in prog.all_nested(st):
+        ctx.analysed(b)
+        for e, canon, bi in q.cmp_atoms(b):
+            cm = q.as_cmp(e)
+            if not cm:
+                continue
+            n += 1
+            for side in (cm[1], cm[2]):
+                ni = q.narrowed_inner(side)
+                if ni is not None:
+                    inner, bits, how = ni
+                    r.violation("narrowed-bound/%s" % sig(inner)[:60], "%s compares %s: the %s is %s to %d bits before the bound is applied, so the test is not a test of the whole value" %
+                                (_short(b), sig(e)[:120], "length" if "len" in sig(inner) else "value", how, bits), b.where(bi))
+    r.floor("comparisons in instruction code", n, 12)
+    if not [x for x in r.records if x["verdict"] == "violation"]:
+        r.ok("narrowed-bound/none", "no comparison operand in the %d comparisons of the instruction code is a narrowing cast" % n)
+
+
 def _short(b):
     return b.nname.replace("melvm::", "").replace("{closure#", "c").replace("}", "")
 
@@ -459,4 +486,4 @@ def shared(ctx):
     core.import_rules(ctx, [c11.r3_forward_pc, c11.r4_nesting, c11.r5_length_guards], "X11")
 
 
-RULES = [r1_dispatch, r2_alu, r3_failure_discipline, r4_determinism, r5_result, r6_layouts, r7_bounded_exp, r8_narrowing, shared]
+RULES = [r1_dispatch, r2_alu, r3_failure_discipline, r4_determinism, r5_result, r6_layouts, r7_bounded_exp, r8_narrowing, r9_bounds_on_full_width, shared]
